@@ -41,7 +41,8 @@ Definition nth_obs (lives : list nobs) (i : nat) : nobs := nth i lives (0, None,
    - if it is still in that term, the vote it had cast there is the vote it comes back with,
      and a different candidate probing in that term is refused;
    - every entry that was in its log (each was persisted before it was acknowledged or accepted)
-     is back at its index, except where the step in progress at the crash was itself
+     is back with its index, term and content (the in-memory log may have been compacted: the
+     comparison is by entry index, not by position), except where the step in progress at the crash was itself
      overwriting a conflicting suffix. *)
 Definition oracle_at (lives : list nobs) (ends : list N) (k : N) (ro : option robs) : bool :=
   match ro with
@@ -60,12 +61,18 @@ Definition oracle_at (lives : list nobs) (ends : list N) (k : N) (ro : option ro
             | None => true
             end
           else true)
-      && list_eqb lentry_eqb (firstn keep rl) (firstn keep ll)
+      && forallb (fun e => existsb (lentry_eqb e) rl) (firstn keep ll)
   end.
+
+(* In-memory log compaction (finalize_to + create_snapshot + truncate_log) writes nothing to the
+   WAL and -- for requests that refer to indices above the compaction base, which is all the
+   harness sends afterwards -- changes no reply: for the model it only changes which suffix of the
+   log the node still SHOWS.  The new base (first retained index - 1) is read off the node. *)
+Inductive xstep := XS (s : step_in) | XCompact (newbase : N).
 
 (* one generation as seen on the implementation *)
 Definition gen_rec :=
-  (list step_in * list step_out * list nobs * list N * N * list byte * list (N * N * N * option robs) * N)%type.
+  (list xstep * list step_out * list nobs * list N * N * list byte * list (N * N * N * option robs) * N)%type.
 Definition gens_case := (tab * list gen_rec)%type.
 Definition range (a z step : N) : list N :=
   map (fun i => a + i * step) (N_seq (N.succ ((z - a) / (N.max 1 step)))).
@@ -80,13 +87,18 @@ Variable t : tab.
 Notation mstep := (dstep (ser_of t) crc32u).
 Notation mrestart := (restart (deser_of t) crc32u gen_raft_tail_repair).
 
-Fixpoint run_obs (d : dnode) (steps : list step_in) : dnode * list step_out * list nobs * list N :=
+Definition observe_from (b : N) (n : node) : nobs :=
+  (term n, voted n, filter (fun e => b <? l_idx e) (log n), role n).
+Fixpoint run_obs (b : N) (d : dnode) (steps : list xstep) : dnode * list step_out * list nobs * list N :=
   match steps with
   | [] => (d, [], [], [])
-  | s :: r =>
+  | XS s :: r =>
       let '(d1, out) := mstep d s in
-      let '(d2, outs, os, es) := run_obs d1 r in
-      (d2, out :: outs, observe (nd d1) :: os, N.of_nat (length (file d1)) :: es)
+      let '(d2, outs, os, es) := run_obs b d1 r in
+      (d2, out :: outs, observe_from b (nd d1) :: os, N.of_nat (length (file d1)) :: es)
+  | XCompact b' :: r =>
+      let '(d2, outs, os, es) := run_obs b' d r in
+      (d2, [] :: outs, observe_from b' (nd d) :: os, N.of_nat (length (file d)) :: es)
   end.
 
 Definition probe_granted (n : node) : bool :=
@@ -105,7 +117,7 @@ Fixpoint gens_model (d : dnode) (gs : list gen_rec) : N :=
   | [] => V_OK
   | g :: rest =>
       let '(steps, outs, lives, ends, base, fbytes, crashes, chosen) := g in
-      let '(d1, mouts, os, es) := run_obs d steps in
+      let '(d1, mouts, os, es) := run_obs 0 d steps in
       if negb (N.eqb base (N.of_nat (length (file d)))) then V_MISMATCH
       else if negb (list_eqb (list_eqb N.eqb) mouts outs) then V_MISMATCH
       else if negb (list_eqb nobs_eqb (observe (nd d) :: os) lives) then V_MISMATCH
